@@ -119,10 +119,11 @@ class Episode:
         self.events: list = []      # (t, kind, arg)
         self.probe = True
         self.coarse_clock = False   # datetime.now() with 1/64 s resolution: queue entries' time stamps tie
+        self.hop = False            # packets reach the protocol through one call_soon hop (as from the real transports)
 
     def to_json(self) -> dict:
         return {"mode": self.mode, "calls": self.calls, "tx": {f"{k[0]}:{k[1]}": v for k, v in self.tx.items()},
-                "events": self.events, "coarse_clock": self.coarse_clock}
+                "events": self.events, "coarse_clock": self.coarse_clock, "hop": self.hop}
 
     @staticmethod
     def from_json(d: dict) -> "Episode":
@@ -132,6 +133,7 @@ class Episode:
         e.tx = {tuple(int(x) for x in k.split(":")): v for k, v in d["tx"].items()}
         e.events = [tuple(x) for x in d["events"]]
         e.coarse_clock = bool(d.get("coarse_clock", False))
+        e.hop = bool(d.get("hop", False))
         return e
 
 
@@ -166,6 +168,7 @@ def gen_episode(rnd: random.Random, fine: bool = True) -> Episode:
                              c0["t"] + min(c0["timeout"], 20.0) + rnd.choice((0, 0, -1e-9, 1e-9))))      # ... and a caller's own deadline
             e.events.append((tt, kind, rnd.randrange(len(FOREIGN))))
         e.coarse_clock = rnd.random() < 0.25
+        e.hop = rnd.random() < 0.3
     return e
 
 
@@ -288,9 +291,17 @@ def run_episode(ep: Episode) -> Result:
                 sc = ep.tx.get((idx, n), {"echo": 0.02, "reply": 0.1, "dup": False, "fail": False})
                 if sc["fail"]:
                     raise exc.TransportError("write failed (scripted)")
-                def deliver(kind, pkt):
+                def deliver_now(kind, pkt):
                     res.pkts.append((loop.time(), kind, idx))
                     protocol.pkt_received(pkt)
+
+                def deliver(kind, pkt):
+                    # (the real transports hand a packet to the protocol through call_soon: one hop behind whatever else
+                    #  fell due in the same iteration, e.g. a timer task's wake-up)
+                    if ep.hop:
+                        loop.call_soon(deliver_now, kind, pkt)
+                    else:
+                        deliver_now(kind, pkt)
 
                 if sc["echo"] is not None:
                     pkt = Packet.from_port(VClockDt.now(), "000 " + frame.replace(HGI, GWY))
